@@ -71,7 +71,7 @@ Usage:
 
 func main() {
 	var root, profile, listSet, outputPath, compressionInput, includeAtoms, atomsFile string
-	var fileListFile, recipeFile string
+	var fileListFile, recipeFile, recipeCompression string
 	var generate, help, listFiles, listFilesByPackage, nobdeps, noVDB, emptyDev, showVer bool
 
 	flag.StringVar(&listSet, "list", "", "output list")
@@ -143,8 +143,8 @@ func main() {
 				fileListFiles = append(fileListFiles, value)
 			case "compress":
 				needValue = true
-				if len(compressionInput) == 0 {
-					compressionInput= value
+				if len(recipeCompression) == 0 {
+					recipeCompression = value
 				}
 			case "nobdeps":
 				nobdeps = true
@@ -211,6 +211,11 @@ func main() {
 			method, err = decodeCompressionInput(compressionInput)
 		} else if len(outputPath) > 0 {
 			method, err = decodeFilenameExtension(outputPath)
+			if err != nil && len(recipeCompression) > 0 {
+				method, err = decodeCompressionInput(recipeCompression)
+			}
+		} else if len(recipeCompression) > 0 {
+			method, err = decodeCompressionInput(recipeCompression)
 		} else {
 			method = compression_none
 		}
